@@ -203,6 +203,80 @@ type mach = { mutable t : int M.tree; regs : M.cursor array; mutable used : int;
 
 let mach_reset m = Array.fill m.regs 0 4 M.CNil; m.used <- 0
 
+(* ---- round 5 (harness round5.go): a cursor used while its own Inorder runs, traversals alive together.
+   A traversal is evaluated by itself, from the cursor's position at the moment it starts. *)
+let body_letters = "nplrumxhHvki123456789"
+let all_in set str = String.for_all (fun ch -> String.contains set ch) str
+let rec take_n n l = if n <= 0 then [] else match l with [] -> [] | x :: r -> x :: take_n (n - 1) r
+let reg_ch c = let v = Char.code c - 48 in if v >= 0 && v <= 3 then Some v else None
+let nat_opt s = match int_of_string_opt s with
+  | Some v when v >= 0 && s <> "" && String.for_all (fun c -> c >= '0' && c <= '9') s -> Some v | _ -> None
+
+let run_seq (t : int M.tree) (c : M.cursor ref) (seq : string) (res : Buffer.t) =
+  String.iter (fun ch ->
+    match ch with
+    | 'h' -> Buffer.add_string res (b01 (ok (M.has_next t !c)))
+    | 'H' -> Buffer.add_string res (b01 (ok (M.has_prev t !c)))
+    | 'v' -> Buffer.add_string res (b01 (M.valid !c))
+    | 'k' -> Buffer.add_string res ("(" ^ string_of_int (ok (M.key 0 t !c)) ^ ")")
+    | 'n' | 'p' | 'l' | 'r' | 'u' | 'm' | 'x' -> c := ok (M.step t !c (move_of ch))
+    | _ ->
+      let lim = if ch = 'i' then 0 else Char.code ch - 48 in
+      let (acc, _) = ok (M.cinorder t !c (fun (acc, n) x -> ((x :: acc, n + 1), lim = 0 || n + 1 < lim)) ([], 0)) in
+      Buffer.add_string res ("[" ^ str_ints (List.rev acc) ^ "]")) seq
+
+let mach_op5 (m : mach) op : string =
+  let t = m.t in
+  let touch r = if r + 1 > m.used then m.used <- r + 1 in
+  let state () = String.concat "/" (List.init m.used (fun i -> obs_str t m.regs.(i))) in
+  let n = String.length op in
+  match op.[0], String.split_on_char ':' op with
+  | 'y', [h; lim; every; seq] when String.length h = 3 && all_in body_letters seq ->
+    (match reg_ch op.[1], reg_ch op.[2], nat_opt lim, nat_opt every with
+     | Some r, Some s, Some lim, Some every when every >= 1 ->
+       touch r; touch s;
+       let all = ok (M.cinorder_all t m.regs.(r)) in
+       let outer = if lim = 0 then all else take_n lim all in
+       let res = Buffer.create 64 in
+       let c = ref m.regs.(s) in
+       List.iteri (fun j _ -> if j mod every = 0 then begin Buffer.add_char res '_'; run_seq t c seq res end) outer;
+       m.regs.(s) <- !c;
+       "z" ^ Buffer.contents res ^ "=" ^ state () ^ "=" ^ str_ints outer
+     | _ -> "?")
+  | 't', [h; lim; seq] when String.length h = 2 && all_in body_letters seq ->
+    (match reg_ch op.[1], nat_opt lim with
+     | Some r, Some lim ->
+       touch r;
+       let all = M.inorder t in
+       let outer = if lim = 0 then all else take_n lim all in
+       let res = Buffer.create 64 in
+       List.iter (fun k ->
+         Buffer.add_char res '_';
+         let c = ref (ok (M.tree_cursor m.zcmp t k)) in
+         run_seq t c seq res;
+         m.regs.(r) <- !c) outer;
+       "z" ^ Buffer.contents res ^ "=" ^ state () ^ "=" ^ str_ints outer
+     | _ -> "?")
+  | 'z', _ when n >= 4 && op.[3] = ':' && all_in "abnplrumx" (String.sub op 4 (n - 4)) ->
+    (match reg_ch op.[1], reg_ch op.[2] with
+     | Some a, Some b ->
+       touch a; touch b;
+       let regs = [| a; b |] in
+       let lists = [| None; None |] and pulls = [| 0; 0 |] in
+       String.iter (fun ch ->
+         if ch = 'a' || ch = 'b' then begin
+           let i = Char.code ch - 97 in
+           (* the traversal starts at its first pull, from where its cursor is then *)
+           if lists.(i) = None then lists.(i) <- Some (ok (M.cinorder_all t m.regs.(regs.(i))));
+           pulls.(i) <- pulls.(i) + 1
+         end else m.regs.(a) <- ok (M.step t m.regs.(a) (move_of ch))) (String.sub op 4 (n - 4));
+       let part i = match lists.(i) with
+         | None -> "."
+         | Some l -> str_ints (take_n pulls.(i) l) ^ (if pulls.(i) > List.length l then "$" else "") in
+       "Z" ^ part 0 ^ "/" ^ part 1 ^ "=" ^ state ()
+     | _ -> "?")
+  | _ -> "?"
+
 let mach_op (m : mach) op : string =
   let t = m.t in
   let ints l = if m.big then fmt_ints l else str_ints l in
@@ -242,6 +316,7 @@ let mach_op (m : mach) op : string =
         m.regs.(r) <- !c;
         "y" ^ Buffer.contents res ^ "=" ^ state ()
       end
+    | 'y' | 't' | 'z' -> mach_op5 m op
     | 'i' -> touch r; "i:" ^ ints (ok (M.cinorder_all t m.regs.(r)))
     | 'j' when op.[String.length op - 1] = '!' &&
                (op.[2] <> ':' || (match int_of_string_opt (String.sub op 3 (String.length op - 4)) with Some l -> l < 1 | None -> true)) -> "?"
@@ -632,6 +707,89 @@ let sm_op (m : sm) op it =
             regs.(r) <- At { a with lo = Some s; hi = Some (s + mlen) }
           end else regs.(r) <- At { a with lo = Some s }
         end)
+   | 'y' | 't' | 'z' ->
+     (* round 5: every traversal is the ascending run of the keys of the subtree its cursor was at when it
+        started (ranks of the recorded shape), whatever else happens while it is suspended; the moves
+        from inside the loop body are followed on the ranks as in a compound walk *)
+     let tb = match m.tbl with Some tb -> tb | None -> fail r op "the line has no shape" in
+     let range i = if i < 0 then [] else Array.to_list (Array.sub l tb.tlo.(i) (tb.thi.(i) - tb.tlo.(i))) in
+     let pos_of q = match regs.(q) with Inv -> -1 | At a -> a.i in
+     let sim (pos : int ref) seq (want : Buffer.t) =
+       String.iter (fun ch ->
+         let i = !pos in
+         match ch with
+         | 'h' -> Buffer.add_string want (b01 (i >= 0 && i + 1 < n))
+         | 'H' -> Buffer.add_string want (b01 (i > 0))
+         | 'v' -> Buffer.add_string want (b01 (i >= 0))
+         | 'k' -> Buffer.add_string want ("(" ^ string_of_int (if i >= 0 then l.(i) else 0) ^ ")")
+         | 'i' -> Buffer.add_string want ("[" ^ str_ints (range i) ^ "]")
+         | '1' .. '9' -> Buffer.add_string want ("[" ^ str_ints (take_n (Char.code ch - 48) (range i)) ^ "]")
+         | _ when i < 0 -> ()
+         | 'n' -> pos := if i + 1 < n then i + 1 else -1
+         | 'p' -> pos := i - 1
+         | 'l' -> pos := tb.lc.(i)
+         | 'r' -> pos := tb.rc.(i)
+         | 'u' -> pos := tb.par.(i)
+         | 'm' -> pos := tb.tlo.(i)
+         | 'x' -> pos := tb.thi.(i) - 1
+         | _ -> fail r op "bad op") seq in
+     let settle moved obs_txt =
+       let obs = Array.of_list (String.split_on_char '/' obs_txt) in
+       if Array.length obs <> m.sused then fail r op "wrong number of registers";
+       Array.iteri (fun q o -> if not (List.mem_assoc q moved) && last.(q) <> "" && o <> last.(q) then
+         fail q op "a cursor changed although only another one was used") obs;
+       List.iter (fun (q, p) ->
+         regs.(q) <- (if p < 0 then Inv else At { i = p; lo = Some tb.tlo.(p); hi = Some tb.thi.(p); bits = "" });
+         check q op obs.(q)) moved;
+       Array.iteri (fun q o -> last.(q) <- o) obs in
+     let parts = String.split_on_char '=' it in
+     (match c, String.split_on_char ':' op, parts with
+      | 'y', [_; lim; every; seq], [answers; obs_txt; outer] when String.length answers >= 1 && answers.[0] = 'z' ->
+        let s = (match reg_ch op.[2] with Some s -> s | None -> fail r op "bad register") in
+        touch s;
+        let lim = int_of_string lim and every = int_of_string every in
+        let all = range (pos_of r) in
+        let want_outer = if lim = 0 then all else take_n lim all in
+        if outer <> str_ints want_outer then
+          fail r op (Printf.sprintf "Inorder delivers %s while the cursor is used from the loop body; the subtree it started at holds %s" outer (str_ints want_outer));
+        let pos = ref (pos_of s) and want = Buffer.create 64 in
+        List.iteri (fun j _ -> if j mod every = 0 then begin Buffer.add_char want '_'; sim pos seq want end) want_outer;
+        let answers = String.sub answers 1 (String.length answers - 1) in
+        if answers <> Buffer.contents want then
+          fail s op (Printf.sprintf "inside the loop body the cursor answers %s, the ranks of the shape give %s" answers (Buffer.contents want));
+        settle [(s, !pos)] obs_txt
+      | 't', [_; lim; seq], [answers; obs_txt; outer] when String.length answers >= 1 && answers.[0] = 'z' ->
+        let lim = int_of_string lim in
+        let all = Array.to_list l in
+        let want_outer = if lim = 0 then all else take_n lim all in
+        if outer <> str_ints want_outer then fail r op (Printf.sprintf "Tree.Inorder delivers %s while cursors are taken from the loop body, the tree holds %s" outer (str_ints all));
+        let pos = ref (pos_of r) and want = Buffer.create 64 in
+        List.iteri (fun j _ -> Buffer.add_char want '_'; pos := j; sim pos seq want) want_outer;
+        let answers = String.sub answers 1 (String.length answers - 1) in
+        if answers <> Buffer.contents want then
+          fail r op (Printf.sprintf "cursors taken inside the loop body answer %s, the ranks of the shape give %s" answers (Buffer.contents want));
+        settle [(r, !pos)] obs_txt
+      | 'z', _, [lists; obs_txt] when String.length lists >= 1 && lists.[0] = 'Z' && String.length op >= 4 ->
+        let b = (match reg_ch op.[2] with Some b -> b | None -> fail r op "bad register") in
+        touch b;
+        let qs = [| r; b |] in
+        let started = [| None; None |] and pulls = [| 0; 0 |] in
+        let pos = ref (pos_of r) in
+        let cur q = if q = r then !pos else pos_of q in
+        String.iter (fun ch ->
+          if ch = 'a' || ch = 'b' then begin
+            let i = Char.code ch - 97 in
+            if started.(i) = None then started.(i) <- Some (range (cur qs.(i)));
+            pulls.(i) <- pulls.(i) + 1
+          end else sim pos (String.make 1 ch) (Buffer.create 1)) (String.sub op 4 (String.length op - 4));
+        let part i = match started.(i) with
+          | None -> "."
+          | Some ks -> str_ints (take_n pulls.(i) ks) ^ (if pulls.(i) > List.length ks then "$" else "") in
+        let want = "Z" ^ part 0 ^ "/" ^ part 1 in
+        if lists <> want then
+          fail r op (Printf.sprintf "two traversals alive together deliver %s, each alone delivers %s" lists want);
+        settle [(r, !pos)] obs_txt
+      | _ -> fail r op "bad item")
    | 'w' ->
      (* moves with nothing observed in between: followed on the ranks of the recorded shape (an
         independent reading of the moves: Next/Prev rank +-1, Left/Right/Up the child/parent rank,
